@@ -1,6 +1,42 @@
-From Coq Require Import NArith.
+From Coq Require Import NArith List.
+Import ListNotations.
 From Stam Require Import Base.Tac Model.Rel Model.Offset Model.Transpose Spec.TransposeSpec Proofs.Transpose Props.C16.
 Check (C16_rel_offset_text : forall (t1 t2 : text) b1 e1 b2 e2 x y,
   sub t1 b1 e1 = sub t2 b2 e2 -> y <= e1 - b1 -> y <= e2 - b2 ->
   sub t1 (b1 + x) (b1 + y) = sub t2 (b2 + x) (b2 + y)).
+Check (C16_transpose_sound : forall T V r src cfg existing complex fuel res,
+  wf_input T complex V r src = true ->
+  transpose fuel (lens_of T) complex V r src cfg existing = TOk res ->
+  check_forward T V r src cfg (flagged res) = true).
+Check (C16_text_preserved : forall T V r src cfg O, check_forward T V r src cfg O = true ->
+  exists s, find_flag 0 O = Some s /\ length O = length V
+    /\ concat (map (subf T) (snd (nth s O (0, [])))) = concat (map (sub2 (text_of T r)) src)
+    /\ covered (nth s V []) r src = true
+    /\ forall j, j < length O ->
+         Forall (fun g => in_range T g = true) (snd (nth j O (0, [])))
+         /\ map (subf T) (snd (nth j O (0, []))) = map (subf T) (snd (nth s O (0, [])))).
+Check (C16_new_transposition_wf : forall T V r src cfg O,
+  wf_transp T V = true -> check_forward T V r src cfg O = true -> new_transposition_wf T O = true).
+Check (C16_transpose_back : forall T O j cfg fuel,
+  wf_transp T O = true -> j < length O ->
+  single_res (nth j O []) = true -> pairwise_apart (nth j O []) = true ->
+  (cfg = Some j \/ (cfg = None /\ only_side_in_res O j = true)) ->
+  fuel_for (map rng (nth j O [])) <= fuel ->
+  transpose_annotation fuel (lens_of T) true O (nth j O []) cfg = TOk (mkres j false O)).
+Check (C16_uncovered_fails : forall T V r src cfg existing complex fuel,
+  wf_input T complex V r src = true ->
+  (forall s, covered (nth s V []) r src = false) ->
+  forall res, transpose fuel (lens_of T) complex V r src cfg existing <> TOk res).
+Check (C16_total : forall T V r src cfg existing complex fuel,
+  wf_input T complex V r src = true -> fuel_for src <= fuel ->
+  transpose fuel (lens_of T) complex V r src cfg existing = TErr
+  \/ exists res, transpose fuel (lens_of T) complex V r src cfg existing = TOk res).
 Print Assumptions C16_rel_offset_text.
+Print Assumptions C16_transpose_sound.
+Print Assumptions C16_annotation_entry.
+Print Assumptions C16_text_preserved.
+Print Assumptions C16_new_transposition_wf.
+Print Assumptions C16_transpose_back.
+Print Assumptions C16_uncovered_fails.
+Print Assumptions C16_total.
+Print Assumptions C16_nonvacuous.
